@@ -320,6 +320,88 @@ pub fn long_chains(col: &Collector) -> CheckResult {
     Ok(())
 }
 
+// ------------------------------------------------------------------ wide dimensions, three-byte ids
+
+/// A hierarchy of 130 levels and an anarchy of 130 attributes (attribute counts need two LEB128
+/// bytes) whose attribute ids start beyond 16 384 (three LEB128 bytes inside every right).
+pub fn wide_dimensions(col: &Collector) -> CheckResult {
+    let cc = Covercrypt::default();
+    let e = |e: Error| Fail::new("wide-dimensions-failed", short_err(&e));
+    let (mut msk, _) = cc.setup().map_err(e)?;
+    msk.access_structure.add_anarchy("TMP".into()).map_err(e)?;
+    for i in 0..16_390 {
+        msk.access_structure.add_attribute(qa("TMP", &format!("t{i}")), hint(false), None).map_err(e)?;
+    }
+    msk.access_structure.del_dimension("TMP").map_err(e)?;
+    for (dim, hier) in [("LVL", true), ("GRP", false)] {
+        if hier {
+            msk.access_structure.add_hierarchy(dim.into()).map_err(e)?;
+        } else {
+            msk.access_structure.add_anarchy(dim.into()).map_err(e)?;
+        }
+        let mut prev: Option<String> = None;
+        for i in 0..130 {
+            let name = format!("{}{i}", if hier { "l" } else { "g" });
+            msk.access_structure.add_attribute(qa(dim, &name), hint(i % 50 == 7), if hier { prev.as_deref() } else { None }).map_err(e)?;
+            prev = Some(name);
+        }
+        // one dimension at a time: 131 rights each, the product would be 17 161
+        let mpk = cc.update_msk(&mut msk).map_err(e)?;
+        let sb = rt(&msk.access_structure, "AccessStructure")?;
+        let ws = WStructure::decode(&sb).map_err(|e| Fail::new("codec-cannot-decode-structure", e))?;
+        let d = ws.dims.iter().find(|d| d.name == dim).ok_or_else(|| Fail::new("wide-dimension-missing", dim.to_string()))?;
+        if ws.encode() != sb || d.attrs.len() != 130 || d.attrs.iter().any(|a| a.id < 16_384) {
+            return Err(Fail::new("wide-dimension-codec", format!("{dim}: {} attributes, smallest id {:?}", d.attrs.len(), d.attrs.iter().map(|a| a.id).min())));
+        }
+        if hier && d.attrs.iter().enumerate().any(|(i, a)| a.name != format!("l{i}")) {
+            return Err(Fail::new("wide-hierarchy-order", "levels are not stored in rank order".to_string()));
+        }
+        let mb = rt(&msk, "MasterSecretKey")?;
+        let wm = WMsk::decode(&mb).map_err(|e| Fail::new("codec-cannot-decode-msk", e))?;
+        let pb = rt(&mpk, "MasterPublicKey")?;
+        let wp = WMpk::decode(&pb).map_err(|e| Fail::new("codec-cannot-decode-mpk", e))?;
+        if wm.encode() != mb || wp.encode() != pb || wm.rights.len() != 131 || wp.keys.len() != 131 {
+            return Err(Fail::new("wide-dimension-codec", format!("{dim}: master key decodes to {} rights, public key to {} (expected 131)", wm.rights.len(), wp.keys.len())));
+        }
+        col.eval(3);
+        // keys and encapsulations through deserialized objects
+        let mut msk2: MasterSecretKey = de(&mb).map_err(|e| Fail::new("roundtrip-deserialize-failed:MasterSecretKey", e))?;
+        let mpk2: MasterPublicKey = de(&pb).map_err(|e| Fail::new("roundtrip-deserialize-failed:MasterPublicKey", e))?;
+        let (hi, mid, lo) = if hier { ("l129", "l64", "l0") } else { ("g129", "g64", "g0") };
+        let k_hi = cc.generate_user_secret_key(&mut msk2, &AccessPolicy::Term(qa(dim, hi))).map_err(e)?;
+        let k_mid = cc.generate_user_secret_key(&mut msk2, &AccessPolicy::Term(qa(dim, mid))).map_err(e)?;
+        let ub = rt(&k_hi, "UserSecretKey")?;
+        let wu = WUsk::decode(&ub).map_err(|e| Fail::new("codec-cannot-decode-usk", e))?;
+        let want_rights = if hier { 131 } else { 2 };
+        if wu.encode() != ub || wu.rights.len() != want_rights {
+            return Err(Fail::new("wide-dimension-codec", format!("{dim}: key for {hi} holds {} rights, expected {want_rights}", wu.rights.len())));
+        }
+        let k_hi2: UserSecretKey = de(&ub).map_err(|e| Fail::new("roundtrip-deserialize-failed:UserSecretKey", e))?;
+        for (target, opens_hi, opens_mid) in [(hi, true, false), (mid, hier, true), (lo, hier, hier)] {
+            let (s, x) = cc.encaps(&mpk2, &AccessPolicy::Term(qa(dim, target))).map_err(e)?;
+            let xb = rt(&x, "XEnc")?;
+            let x2: XEnc = de(&xb).map_err(|e| Fail::new("roundtrip-deserialize-failed:XEnc", e))?;
+            for (who, key, want) in [("top / last", &k_hi2, opens_hi), ("middle", &k_mid, opens_mid)] {
+                col.eval(1);
+                let got = match cc.decaps(key, &x2) {
+                    Ok(Some(v)) if v == s => true,
+                    Ok(None) => false,
+                    other => return Err(Fail::new("wide-dimension-verdict", format!("{dim}: {who} key vs {target}: {:?}", other.map(|o| o.is_some()).map_err(|e| short_err(&e))))),
+                };
+                if got != want {
+                    return Err(Fail::new("wide-dimension-verdict", format!("{dim} ({}): {who} key vs encapsulation for {target}: opens={got}, expected {want}", if hier { "hierarchy of 130 levels" } else { "130 unordered attributes" })));
+                }
+                col.nontrivial(&("wide-dim", dim, target, who));
+            }
+        }
+        // drop the dimension again so that the next one stands alone
+        msk.access_structure.del_dimension(dim).map_err(e)?;
+        cc.update_msk(&mut msk).map_err(e)?;
+    }
+    col.class("wide-dimensions:verified");
+    Ok(())
+}
+
 // ------------------------------------------------------------------ pinned-release layout of current objects
 
 /// The pinned release wrote access structures without the next-id field (version 0). Current
@@ -537,6 +619,10 @@ pub fn run(ctx: &Ctx, col: &Collector) -> Meta {
         report_fail(col, "long-chains", f, json!({"config": wire::CONFIG}));
         return meta();
     }
+    if let Err(f) = crate::runner::guarded(|| wide_dimensions(col)) {
+        report_fail(col, "wide-dimensions", f, json!({"config": wire::CONFIG}));
+        return meta();
+    }
     if let Err(f) = crate::runner::guarded(|| pinned_layout(col)) {
         report_fail(col, "pinned-layout", f, json!({"config": wire::CONFIG}));
         return meta();
@@ -544,7 +630,7 @@ pub fn run(ctx: &Ctx, col: &Collector) -> Meta {
     run_cases(&ctx.run_cfg(ctx.n(1500, 30_000), 2), "header", header_strategy, col, check_header);
     let h = hc(ctx.thorough);
     run_hist(ctx, col, &h, ctx.n(3000, 25_000));
-    for c in ["header:metadata-absent", "header:metadata-empty", "header:metadata-non-empty", "golden:verified", "big-objects:verified", "long-chains:verified", "pinned-layout:verified"] {
+    for c in ["header:metadata-absent", "header:metadata-empty", "header:metadata-non-empty", "golden:verified", "big-objects:verified", "long-chains:verified", "pinned-layout:verified", "wide-dimensions:verified"] {
         if col.class_count(c) == 0 && !col.stopped() {
             col.note(format!("generator unhealthy: class {c} empty"));
         }
@@ -555,7 +641,7 @@ pub fn run(ctx: &Ctx, col: &Collector) -> Meta {
 fn meta() -> Meta {
     Meta {
         level: "exploration",
-        rule: "(1) random histories over the whole API with a serialization round-trip of the master key, latest public key, a user key or an encapsulation injected before random steps (the deserialized object replaces the original): for every round-trip, serialize().len() == length(), write() returns the number of bytes appended, deserialize(serialize(x)) == x and the independent codec decodes the bytes to the model state; every later Ok/Err outcome, serialized state and decapsulation verdict must still agree with the reference model; (2) encrypted headers and cleartext headers for all metadata / authentication-data shapes and flavours (strict round-trip, documented size formula, deserialized header decrypts to the same data, absent = empty metadata on the wire); (3) golden vectors serialized by the pinned release for this configuration: all objects deserialize and decode, golden keys open golden encapsulations / headers exactly as recorded, the golden master key refreshes golden keys, rekeys, issues keys that open new encapsulations, and an attribute added to the golden V1 structure gets a fresh id; (4) fixed large objects crossing every LEB128 boundary (630 rights, 240 targets, ids >= 140, long names, > 127 users) and one right rotated 131 times with a key refreshed after every rotation (chains of 126-132 revisions in master key and user key): strict round-trips, codec agreement, deserialized objects used; (5) current master keys, public keys and structures of four shapes (among them the empty structure of a fresh setup) re-encoded in the pinned release's layout through the codec must load to the same content and keep working. Non-trivial = history with a round-trip followed by >= 3 asserted decapsulation outcomes or containing a rekey / effective disable; header shape class; each golden (key, encapsulation) pair".into(),
+        rule: "(1) random histories over the whole API with a serialization round-trip of the master key, latest public key, a user key or an encapsulation injected before random steps (the deserialized object replaces the original): for every round-trip, serialize().len() == length(), write() returns the number of bytes appended, deserialize(serialize(x)) == x and the independent codec decodes the bytes to the model state; every later Ok/Err outcome, serialized state and decapsulation verdict must still agree with the reference model; (2) encrypted headers and cleartext headers for all metadata / authentication-data shapes and flavours (strict round-trip, documented size formula, deserialized header decrypts to the same data, absent = empty metadata on the wire); (3) golden vectors serialized by the pinned release for this configuration: all objects deserialize and decode, golden keys open golden encapsulations / headers exactly as recorded, the golden master key refreshes golden keys, rekeys, issues keys that open new encapsulations, and an attribute added to the golden V1 structure gets a fresh id; (4) fixed large objects crossing every LEB128 boundary (630 rights, 240 targets, ids >= 140, long names, > 127 users) and one right rotated 131 times with a key refreshed after every rotation (chains of 126-132 revisions in master key and user key): strict round-trips, codec agreement, deserialized objects used; a hierarchy of 130 levels and an anarchy of 130 attributes with attribute ids beyond 16 384 (two-byte attribute counts, three-byte ids): same checks plus the cover verdicts of top / middle keys on top / middle / bottom targets; (5) current master keys, public keys and structures of four shapes (among them the empty structure of a fresh setup) re-encoded in the pinned release's layout through the codec must load to the same content and keep working. Non-trivial = history with a round-trip followed by >= 3 asserted decapsulation outcomes or containing a rekey / effective disable; header shape class; each golden (key, encapsulation) pair".into(),
         exhaustive: false,
         assumptions: vec!["golden vectors were produced from commit 8f3c295 (golden/gen) and their open/refuse matrix was checked by hand against the name-level cover relation".into()],
     }
@@ -572,6 +658,7 @@ pub fn replay(kind: &str, case: &serde_json::Value, col: &Collector) -> CheckRes
         "big-objects" => big_objects(col),
         "long-chains" => long_chains(col),
         "pinned-layout" => pinned_layout(col),
+        "wide-dimensions" => wide_dimensions(col),
         k => Err(Fail::new("replay-format", format!("unknown kind {k}"))),
     }
 }
